@@ -34,6 +34,7 @@
 #include <unifex/variant_sender.hpp>
 
 #include <exception>
+#include <optional>
 #include <utility>
 
 #include <unifex/detail/prologue.hpp>
@@ -684,7 +685,10 @@ struct _future_stop_callback_factory final {
     using stop_callback_t =
         inplace_stop_token::callback_type<decltype(stopCallback)>;
 
-    return stop_callback_t{stopToken_, stopCallback};
+    // optional<> so that the future can deregister the callback before it
+    // consumes (and deletes) the spawned operation
+    return std::optional<stop_callback_t>{
+        std::in_place, stopToken_, stopCallback};
   }
 };
 
@@ -721,11 +725,16 @@ struct _future_sender_from_stop_token<T...>::type final {
   auto operator()(inplace_stop_token stopToken) noexcept {
     return let_value_with(
         _future_stop_callback_factory{op_.get(), stopToken},
-        [this](auto&) noexcept {
+        [this](auto& stopCallback) noexcept {
           return let_value(
               op_->evt_.async_wait(),
-              [this]() noexcept(
+              [this, &stopCallback]() noexcept(
                   noexcept(op_->get_value_sender(), op_->get_error_sender())) {
+                // the result is available; deregister the stop callback
+                // before the spawned operation may be deleted below, otherwise
+                // a late stop request would call abandon() on freed memory
+                stopCallback.reset();
+
                 auto rawOp = op_.release();
 
                 using value_t = decltype(op_->get_value_sender());
